@@ -4,7 +4,7 @@ id=$1; prop=$2; shift 2
 cd /repo || exit 9
 if [ -n "$(git status --porcelain --untracked-files=no)" ]; then echo "repo dirty"; exit 9; fi
 p=/verif/seeded/$id/patch.diff; [ -f $p ] || p=/verif/seeded/$id/patch.orig.diff
-if ! git apply -3 $p 2>/tmp/apply_$id.err; then echo "PATCH DOES NOT APPLY: $id"; cat /tmp/apply_$id.err; git reset -q --hard HEAD; exit 8; fi
+if ! git apply $p 2>/tmp/apply_$id.err && ! { git reset -q --hard HEAD; git apply -3 $p 2>>/tmp/apply_$id.err; }; then echo "PATCH DOES NOT APPLY: $id"; cat /tmp/apply_$id.err; git reset -q --hard HEAD; exit 8; fi
 git diff HEAD > /tmp/applied_$id.diff
 cd /verif; ./check $prop --tier quick --no-evidence "$@" > /tmp/mut_${id}_$prop.log 2>&1; rc=$?
 cd /repo; git reset -q --hard HEAD
